@@ -54,6 +54,9 @@ func jsonOf(v any) string {
 	return string(b)
 }
 
+// operator codes shared with coq/Model/Optimizer.v (prunable)
+var binopCodes = map[string]int{"and": 0, "or": 1, "==": 2, "<": 3, "<=": 4, ">": 5, ">=": 6}
+
 var orderCalls = map[string]int{"bucket": 1, "ceil": 2, "floor": 3, "round": 4, "every": 5}
 
 func (m *modelCases) expr(e dag.Expr) string {
@@ -67,8 +70,8 @@ func (m *modelCases) expr(e dag.Expr) string {
 	case *dag.UnaryExpr:
 		return fmt.Sprintf("(EUnary %d %s)", m.id("unop:"+e.Op), m.expr(e.Operand))
 	case *dag.BinaryExpr:
-		op := 0
-		if e.Op != "and" {
+		op, ok := binopCodes[e.Op]
+		if !ok {
 			op = m.id("binop:" + e.Op)
 		}
 		return fmt.Sprintf("(EBinary %d %s %s)", op, m.expr(e.LHS), m.expr(e.RHS))
@@ -251,6 +254,7 @@ func (m *modelCases) addLake(analysed, final dag.Seq, keyPath string, desc bool)
 		return
 	}
 	_, hasSlicer := final[1].(*dag.Slicer)
+	hasPruner := final[0].(*dag.Lister).KeyPruner != nil
 	var item string
 	err := func() (err error) {
 		defer func() {
@@ -264,7 +268,7 @@ func (m *modelCases) addLake(analysed, final dag.Seq, keyPath string, desc bool)
 		}()
 		m.poolSK = fmt.Sprintf("[(%s, %s)]", coqBool(desc), m.path(strings.Split(keyPath, ".")))
 		defer func() { m.poolSK = "" }()
-		item = "(" + m.seq(analysed) + ",\n  " + coqBool(hasSlicer) + ")"
+		item = "(" + m.seq(analysed) + ",\n  " + coqBool(hasSlicer) + ", " + coqBool(hasPruner) + ")"
 		return nil
 	}()
 	if err != nil {
@@ -310,8 +314,8 @@ func (m *modelCases) write(path string) error {
 	var sb strings.Builder
 	sb.WriteString("From ZV Require Import Base.Prelude Model.Dag Model.Optimizer Model.OptimizerCases.\nLocal Open Scope N_scope.\n")
 	writeCases(&sb, "opt_cases", "(seq * option seq)", m.items, 800<<10)
-	writeCases(&sb, "slicer_cases", "(seq * bool)", m.slicer, 200<<10)
-	sb.WriteString("Definition M := Eval vm_compute in (opt_mismatches opt_cases, slicer_mismatches slicer_cases).\nPrint M.\n")
+	writeCases(&sb, "lake_cases", "(seq * bool * bool)", m.slicer, 300<<10)
+	sb.WriteString("Definition M := Eval vm_compute in (opt_mismatches opt_cases, lake_mismatches lake_cases).\nPrint M.\n")
 	return os.WriteFile(path, []byte(sb.String()), 0644)
 }
 
